@@ -37,6 +37,7 @@ class GetterInliner:
     def __init__(self, unit, record_qualname):
         self.unit = unit
         self.map = {}
+        self.nodes = {}
         for f in unit.functions:
             q = unit.qualname(f)
             if not strip_targs(q).startswith(record_qualname + '::'):
@@ -49,6 +50,7 @@ class GetterInliner:
                 e = kids(st[0])[0]
                 if not any(x.get('kind') in ('CallExpr', 'CXXMemberCallExpr') for x in walk(e)):
                     self.map['this.%s()' % f.get('name')] = canon(e)
+                    self.nodes['this.%s()' % f.get('name')] = e
 
     def c(self, n):
         s = canon(n)
@@ -184,7 +186,7 @@ def clamp_summary(func):
     return res
 
 
-def rels_at(site, inl, extra=()):
+def rels_at(site, inl, extra=(), _no_inv=False):
     """Normalised relations (lhs, op, rhs) as canon strings holding at site."""
     out = []
     for n, pol in atoms(path_facts(site)):
@@ -208,10 +210,116 @@ def rels_at(site, inl, extra=()):
                             L_, O_ = inl.c(a_[cs[0]]), inl.c(a_[cs[1]])
                             out.append((O_, '<', L_))
                             out.append((inl.c(v_), '<=', '(%s - %s)' % (L_, O_)))
+        elif strip(n).get('kind') == 'CXXMemberCallExpr' and canon(n) in getattr(inl, 'nodes', {}):
+            # a boolean getter (`eof()` = `offset >= length`) tested as a condition: its comparison, with the polarity
+            r2 = relation(inl.nodes[canon(n)], pol)
+            if r2:
+                out.append((inl.c(r2[0]), r2[1], inl.c(r2[2])))
         elif pol and ref_decl(n) is not None:
             pass
     out.extend(extra)
+    if not _no_inv:
+        out.extend(counter_invariants(site, inl, out))
+    return derive_strict(out)
+
+
+def derive_strict(out):
+    """v <= L together with v != L is v < L"""
+    for a, op, b in list(out):
+        if op == '<=' and any((x == a and y == b) or (x == b and y == a) for x, o2, y in out if o2 == '!='):
+            out.append((a, '<', b))
+        if op == '>=' and any((x == a and y == b) or (x == b and y == a) for x, o2, y in out if o2 == '!='):
+            out.append((a, '>', b))
     return out
+
+
+def with_cond(rels, cond, pol, inl):
+    """rels extended with the comparison atoms of `cond` taken with polarity pol"""
+    out = list(rels)
+    for n, p_ in atoms([Fact(cond, pol, cond)]):
+        r = relation(n, p_)
+        if r:
+            out.append((inl.c(r[0]), r[1], inl.c(r[2])))
+    return derive_strict(out)
+
+
+_COUNTERS = {}
+
+
+def counter_invariants(site, inl, rels_here):
+    """Facts about monotone counters: a local `v` initialised to A with A <= L, whose only write is one
+    `++v` / `v += 1` inside a while/for loop whose condition has the conjunct `v != L` or `v < L`,
+    satisfies v <= L everywhere after its declaration (induction over the iterations: the increment runs
+    only under v < L).  Also v - A <= L - A while nothing A mentions has been written."""
+    f = enclosing_function(site)
+    if f is None or body_of(f) is None:
+        return []
+    key = (id(f), id(inl))
+    if key not in _COUNTERS:
+        found = []
+        body = body_of(f)
+        for vd in walk(body):
+            if vd.get('kind') != 'VarDecl' or not kids(vd) or int_type_info(dtype(vd) or '') is None or enclosing(vd, ('LambdaExpr',)) is not None:
+                continue
+            ws = []
+            for x in walk(body):
+                k = x.get('kind')
+                if k in ('BinaryOperator', 'CompoundAssignOperator') and x.get('opcode') in ASSIGN_OPS and (ref_decl(x['inner'][0]) or {}).get('id') == vd['id']:
+                    ws.append(x)
+                elif k == 'UnaryOperator' and x.get('opcode') in ('++', '--') and (ref_decl(x['inner'][0]) or {}).get('id') == vd['id']:
+                    ws.append(x)
+                elif k == 'UnaryOperator' and x.get('opcode') == '&' and (ref_decl(x['inner'][0]) or {}).get('id') == vd['id']:
+                    ws.append({'kind': 'escape'})
+            if len(ws) != 1:
+                continue
+            w = ws[0]
+            if not ((w.get('kind') == 'UnaryOperator' and w.get('opcode') == '++') or (w.get('kind') == 'CompoundAssignOperator' and w.get('opcode') == '+=' and int_value(w['inner'][1]) == 1)):
+                continue
+            lp = enclosing(w, LOOPS)
+            if lp is None or lp.get('kind') not in ('WhileStmt', 'ForStmt') or any(y is vd for y in walk(lp)) and lp.get('kind') == 'WhileStmt':
+                continue
+            cond = while_parts(lp)[0] if lp.get('kind') == 'WhileStmt' else for_parts(lp)[1]
+            if cond is None:
+                continue
+            in_for_init = lp.get('kind') == 'ForStmt' and any(y is vd for y in walk(for_parts(lp)[0] or {}))
+            if not in_for_init and any(y is vd for y in walk(lp)):
+                continue
+            for n_, pol in atoms([Fact(cond, True, lp)]):
+                r = relation(n_, pol)
+                if not r:
+                    continue
+                for a_, o_, b_ in ((r[0], r[1], r[2]), (r[2], FLIP[r[1]], r[0])):
+                    if (ref_decl(a_) or {}).get('id') == vd['id'] and o_ in ('!=', '<'):
+                        L = inl.c(b_)
+                        if vd.get('name') in _identifiers(L):
+                            continue
+                        found.append((vd, lp, L, o_))
+        _COUNTERS[key] = found
+    out = []
+    for vd, lp, L, o_ in _COUNTERS[key]:
+        if vd.get('_off', 0) > site.get('_off', 0):
+            continue
+        A = inl.c(kids(vd)[-1])
+        # L must not be written in the function, A <= L at the declaration
+        fbody = body_of(f)
+        lw = [x for x in walk(fbody) if x.get('kind') in ('BinaryOperator', 'CompoundAssignOperator', 'UnaryOperator') and x.get('opcode') in tuple(ASSIGN_OPS) + ('++', '--') and kids(x) and canon(x['inner'][0]) in _identifiers(L) | {L}]
+        if lw:
+            continue
+        rels_decl = rels_at(vd, inl, _no_inv=True)
+        if not (A == L or holds(rels_decl, A, ('<=', '<'), L) or A == '0'):
+            continue
+        v = vd.get('name')
+        out.append((v, '<=', L))
+        aw = [x for x in walk(fbody) if x.get('kind') in ('BinaryOperator', 'CompoundAssignOperator', 'UnaryOperator') and x.get('opcode') in tuple(ASSIGN_OPS) + ('++', '--') and kids(x) and canon(x['inner'][0]) in _identifiers(A) and x.get('_off', 0) < site.get('_off', 0)]
+        if not aw and A != '0':
+            out.append(('(%s - %s)' % (v, A), '<=', '(%s - %s)' % (L, A)))
+            out.append((A, '<=', v))
+    return out
+
+
+def _identifiers(s):
+    import re
+    return set(re.findall(r'[A-Za-z_][A-Za-z_0-9.]*', s or ''))
 
 
 def holds(rels, lhs, ops, rhs):
@@ -342,6 +450,9 @@ def inbounds(rels, A, E, L):
                     e_ok = True
     if a_ok and e_ok:
         return True, 'guarded by %s <= %s and %s <= %s' % (base, L, E if need is None else need, diff)
+    # the mirrored overflow-safe form: E <= L and A <= L - E (equally free of wrap-around)
+    if not k and need is None and base != '0' and holds(rels, E, ('<=', '<'), L) and holds(rels, base, ('<=', '<'), '(%s - %s)' % (L, E)):
+        return True, 'guarded by %s <= %s and %s <= (%s - %s)' % (E, L, base, L, E)
     sums = sum_form_guards(rels, base, E, L)
     if sums:
         return False, 'wrapping-sum guard `%s`: for %s or %s near 2^64 the sum wraps, the test passes and the access is out of bounds' % (sums[0], base, E)
